@@ -202,3 +202,38 @@ Definition assign_copy_skip_if_equal (w : aworld) (i j : N) : ares :=
       end
   | _, _ => AIll
   end.
+
+(* ------------------------------------------------------------------ payload kinds (trait lattice) *)
+(* Which payload operations of the storage machine are OBSERVABLE depends on which special members
+   of the payload type are user-provided; the machine itself has a single path for every kind (its
+   only trait test, reset()'s is_trivially_destructible shortcut, skips a destructor call that would
+   be a no-op).  The instrumented traces of the harness are compared with [observed pk] of the model's
+   event log. *)
+Inductive pkind :=
+| PkFull        (* user-provided ctors, copy/move, assignment and destructor: everything is visible *)
+| PkNoDtor      (* trivially destructible, user-provided copy/move ctor and assignment (self-pointer,
+                   copy counter): destructor calls are not observable *)
+| PkDtorOnly    (* user-provided default ctor and destructor, trivial copy/move: only KDefault / KDtor *)
+| PkTrivial.    (* trivially copyable: no payload operation is observable *)
+Definition visible (pk : pkind) (k : ekind) : bool :=
+  match pk, k with
+  | PkFull, _ => true
+  | PkNoDtor, KDtor => false
+  | PkNoDtor, _ => true
+  | PkDtorOnly, (KDefault | KDtor) => true
+  | PkDtorOnly, _ => false
+  | PkTrivial, _ => false
+  end.
+Definition observed (pk : pkind) (l : list ev) : list ev := filter (fun e => visible pk (fst e)) l.
+
+(* the operations that transfer a payload from wrapper j to wrapper i *)
+Definition transfer_of (o : op) : option (N * N) :=
+  match o with
+  | CtorCopy i j | CtorMove i j | CtorConvCopy i j | CtorConvMove i j
+  | AssignCopy i j | AssignMove i j | AssignConvCopy i j | AssignConvMove i j => Some (i, j)
+  | _ => None
+  end.
+Definition is_src_read (j : N) (e : ev) : bool :=
+  match fst e with KRead | KMove => N.eqb (snd e) j | _ => false end.
+Definition is_dst_write (i : N) (e : ev) : bool :=
+  match fst e with KCtor | KAssign => N.eqb (snd e) i | _ => false end.
